@@ -14,6 +14,8 @@ func propC11(r *Report, tier string) {
 	ruleScorchChannelDiscipline(r, "K4-channel-discipline")
 	ruleLoopLifecycle(r, "K5-loop-lifecycle")
 	ruleCancellationPolled(r, "K5-cancellation")
+	ruleReadyChannelHB(r, "K4-ready-channel-happens-before", "index/scorch", "cachedFieldDocs", "readyCh", []string{"docs", "size", "err"})
+	ruleMergerLoopExit(r, "K5-merger-loop-exit")
 }
 
 func ruleScorchRootLockTable(r *Report, rule string) {
